@@ -88,6 +88,9 @@ func C17(c *core.Ctx) {
 			}
 		}
 		checkNoSharedWrites(c, "R7/alphabet-and-encoding-functions-are-pure", roots, "translation, complement and the table constructors must not keep state between calls")
+		// ... and a table that is built once and handed to every caller by reference stays what its constructor made it:
+		// no caller writes through it
+		checkNoWritesThroughSharedResults(c, "R7/no-caller-writes-through-a-shared-table", facts(c))
 		c.Floor("R7/alphabet-and-encoding-functions", len(roots), 6)
 	}
 	ev := newEval(c)
